@@ -344,6 +344,44 @@ def _operands(model, an, rep):
             rep.discharged[R5] = rep.discharged.get(R5, 0) + clean
             rep.constructs.setdefault(R5, set()).update(
                 f"{fn.qualname}({p})" for p in params if p not in per_param)
+    # nested functions handed out to callers (solver closures, callbacks):
+    # their own parameters are operands of whoever calls them
+    nn = 0
+    for fn in model.all_functions():
+        if fn.path.startswith(R5_SKIP_PREFIX):
+            continue
+        outer = local_names(fn.node)
+        for nested in ast.walk(fn.node):
+            if nested is fn.node or not isinstance(nested, ast.FunctionDef):
+                continue
+            nn += 1
+            s = an.summarize_nested(fn.module, nested, fn.cls, outer)
+            per: Dict[str, list] = {}
+            for e in s.effects:
+                for r in e.roots:
+                    if r.startswith("param:"):
+                        per.setdefault(r[6:], []).append(e)
+            params = [a.arg for a in nested.args.posonlyargs
+                      + nested.args.args + nested.args.kwonlyargs
+                      if a.arg not in ("self", "cls")]
+            for p in params:
+                cons = f"{fn.short()}.{nested.name}({p})"
+                if p in per:
+                    e = per[p][0]
+                    chain = f" via {e.via}" if e.via else ""
+                    key = (f"{fn.short()}.{nested.name}", p)
+                    if key in R5_EXCEPTIONS:
+                        used_exc.add(key)
+                        rep.ok(R5, cons + ":exception",
+                               f"stores allowed: {R5_EXCEPTIONS[key]}")
+                        continue
+                    rep.fail(R5, fn.path, fn.short(), cons,
+                             f"storage reachable from operand '{p}' of the "
+                             f"nested function {nested.name} is modified: "
+                             f"{e.detail}{chain}", e.line)
+                else:
+                    rep.ok(R5, cons, "never stored to")
+    rep.units("nested functions analysed for effects on their operands", nn)
     rep.units("functions analysed for effects", n)
     stale = set(R5_EXCEPTIONS) - used_exc
     for k in sorted(stale):
@@ -388,6 +426,9 @@ def run(model: Model, rep, tier: str) -> None:
 
 _U = "skfem/utils.py"
 MUTANTS = [
+    ("CG solver accumulates into the caller's right-hand side",
+     ("skfem/utils.py", "            x = x + alpha * p\n",
+      "            x += alpha * p\n"), "C15-R5"),
     ("ElementQuadP guard reduced to shapes",
      ("skfem/element/element_quad/element_quadp.py",
       "if self._X.shape != X.shape or (self._X != X).any():",
@@ -472,6 +513,11 @@ MUTANTS = [
       "Optional[ndarray]:\n"), "C15-R5"),
 ]
 TWINS = [
+    ("CG solver accumulates into its own copy of the right-hand side",
+     [("skfem/utils.py", "            x = x + alpha * p\n",
+       "            x += alpha * p\n"),
+      ("skfem/utils.py", "        x = b\n        r = b - A.dot(x)\n",
+       "        x = b.copy()\n        r = b - A.dot(x)\n")], None),
     ("cache key extended by an extra component",
      ("skfem/mapping/mapping_isoparametric.py",
       "h = hash_args(i, j, X, tind)", "h = hash_args(i, j, X, tind, "
